@@ -393,6 +393,55 @@ def registered_commands():
                     names.append(bytes.fromhex(tok[1:]).decode("latin-1"))
     return names
 
+
+# Bytes that are hostile to a reply builder: format verbs (a value spliced into a format string), RESP markers,
+# line terminators, quotes, NUL, non-UTF-8, a value longer than one reply chunk.
+HOSTILE = [b"%", b"%d", b"%s%s", b"100%", b"%!x", b"%v %d", b"\\", b"\"q\"", b"'", b"{}", b"$5", b"*2", b":1", b"+OK", b"-ERR x",
+           b"\r", b"\n", b"a\r\nb", b"\r\n$3\r\nfoo\r\n", b"\x00", b"\xff\xfe", b" ", b"%" * 40, b"x" * 1500]
+
+def gen_stored_bytes(rng, thorough):
+    """Every container type stores each hostile byte string (as value, element, field, member, key name) and every
+    reader of that type must answer with exactly one well-formed reply that carries the stored bytes intact."""
+    out = []
+    def writers_readers(v):
+        return [
+            ("str", [("SET", b"k", v)], [("GET", b"k"), ("MGET", b"k", b"k"), ("GETRANGE", b"k", b"0", b"-1"), ("SUBSTR", b"k", b"0", b"-1"),
+                                         ("GETEX", b"k"), ("SET", b"k", v, b"GET"), ("GETDEL", b"k")]),
+            ("key", [("SET", v, b"1")], [("RANDOMKEY",)]),
+            ("list", [("RPUSH", b"l", v, b"z")], [("LRANGE", b"l", b"0", b"-1"), ("LINDEX", b"l", b"0"), ("LPOP", b"l", b"1")]),
+            ("list2", [("LPUSH", b"l", v)], [("RPOP", b"l")]),
+            ("list3", [("LPUSH", b"l", v)], [("LPOP", b"l")]),
+            ("hashv", [("HSET", b"h", b"f", v)], [("HGET", b"h", b"f"), ("HGETALL", b"h"), ("HVALS", b"h"), ("HMGET", b"h", b"f", b"g"),
+                                                 ("HRANDFIELD", b"h", b"1", b"WITHVALUES")]),
+            ("hashf", [("HSET", b"h", v, b"1")], [("HKEYS", b"h"), ("HGETALL", b"h"), ("HRANDFIELD", b"h"), ("HRANDFIELD", b"h", b"-2")]),
+            ("set", [("SADD", b"s", v), ("SADD", b"t", v, b"o")],
+             [("SMEMBERS", b"s"), ("SUNION", b"s", b"t"), ("SINTER", b"s", b"t"), ("SDIFF", b"t", b"u"), ("SRANDMEMBER", b"s"),
+              ("SRANDMEMBER", b"s", b"-3"), ("SPOP", b"s")]),
+            ("zset", [("ZADD", b"z", b"1", v), ("ZADD", b"y", b"2", v)],
+             [("ZRANGE", b"z", b"0", b"10", b"WITHSCORES"), ("ZUNION", b"z", b"y"),
+              ("ZINTER", b"z", b"y", b"WITHSCORES"), ("ZRANDMEMBER", b"z"), ("ZPOPMIN", b"z"), ("ZMPOP", b"y", b"MAX")]),
+        ]
+    vals = HOSTILE if thorough else HOSTILE
+    for vi, v in enumerate(vals):
+        for kind, ws, rs in writers_readers(v):
+            c = Case("bytes_%s_%d" % (kind, vi), "oracle")
+            exp, blob, marker = [], b"", 0
+            def mark():
+                nonlocal blob, marker
+                m = ("m%04d" % marker).encode(); marker += 1
+                blob += enc("ECHO", m); exp.append(["marker", "$" + m.hex()])
+            mark()
+            for w in ws:
+                w = [a if isinstance(a, bytes) else a.encode() for a in w]
+                blob += enc(*w); exp.append(["cmd", 1, [a.hex() for a in w]]); mark()
+            for r in rs:
+                r = [a if isinstance(a, bytes) else a.encode() for a in r]
+                blob += enc(*r); exp.append(["cmd", 1, [a.hex() for a in r], "$" + v.hex()]); mark()
+            c.T(1, blob).F(1, 5000).L()
+            c.expect[1] = {"seq": exp}
+            out.append(c)
+    return out
+
 def gen_all_commands(rng, names, thorough):
     out = []
     per = 6 if not thorough else 20
@@ -458,6 +507,9 @@ def judge(case, impl, model):
                         got += 1; i += 1
                     if got != n and not (n > 1 and got == 1 and vals[i - 1] == "-"):
                         return "connection %d: command %s got %d replies, expected %d" % (conn, [bytes.fromhex(a) for a in item[2]], got, n)
+                    if len(item) > 3 and got == 1 and item[3] not in vals[i - 1]:
+                        return "connection %d: the reply to %s does not carry the stored bytes %s intact: %s" % (
+                            conn, [bytes.fromhex(a) for a in item[2]], item[3], vals[i - 1][:200])
             if i != len(vals): return "connection %d: %d surplus replies" % (conn, len(vals) - i)
         return None
     # model / frames
@@ -531,6 +583,7 @@ class C12:
             "resp3": gen_resp3(r),
             "quit": gen_quit(),
             "every-registered-command": gen_all_commands(r, names, th),
+            "stored-bytes-intact": gen_stored_bytes(r, th),
         }
 
     def evaluate(self, cases):
